@@ -167,8 +167,43 @@ def run_case(case):
         nm = pulser.NoiseModel(**kw)
     except Exception:
         return result(True, outcome="illegal", nontrivial=False)  # Pulser itself refuses this noise model: not a legal input
-    cfg = m.MPSConfig(dt=10, observables=[m.Occupation(evaluation_times=[1.0])], log_level=logging.CRITICAL, num_gpus_to_use=0, noise_model=nm)
-    full = f"basis={case['basis']} {label}"
+    # three routes to the same operators, taken one after the other in this process: the config's noise model; an equal model parsed a second time;
+    # the model as the DEVICE's default with prefer_device_noise_model (the config then carries another Lindbladian model that must be ignored)
+    last = None
+    for route in ("config", "config-again", "device"):
+        r = _one_route(case, route, seq, spec, kw, label, d, isxy)
+        if not r["ok"]:
+            if route != "config" and not r["sig"].startswith("known-form"):
+                r["sig"] += "|" + route
+            return r
+        if r["outcome"] in ("refused",):
+            return r
+        last = r
+    return last
+
+
+def _one_route(case, route, seq, spec, kw, label, d, isxy):
+    import dataclasses
+
+    import pulser
+    import emu_mps as m
+    from emu_base import PulserData
+    from pulser.devices import MockDevice
+
+    nm = pulser.NoiseModel(**kw)
+    ckw = {"noise_model": nm}
+    if route == "device":
+        dev = dataclasses.replace(MockDevice, default_noise_model=nm)
+        old = kit.device
+        kit.device = lambda name: dev
+        try:
+            seq = kit.build_sequence(spec)
+        finally:
+            kit.device = old
+        other = dict(dephasing_rate=0.33) if "dephasing_rate" not in kw else dict(depolarizing_rate=0.21)
+        ckw = {"noise_model": pulser.NoiseModel(**other), "prefer_device_noise_model": True}
+    cfg = m.MPSConfig(dt=10, observables=[m.Occupation(evaluation_times=[1.0])], log_level=logging.CRITICAL, num_gpus_to_use=0, **ckw)
+    full = f"basis={case['basis']} {label} (route: {route})"
     try:
         pd = PulserData(sequence=seq, config=cfg, dt=10)
     except NotImplementedError:
